@@ -80,6 +80,9 @@ type Wrap struct {
 	// AfterGet, if set, is called after every point read returned (the caller is a goroutine of the system under test:
 	// blocking here is a descheduled reader that has its value in hand).
 	AfterGet func(key, val []byte, err error)
+	// BeforeInnerCommit, if set, is called after a batch's operations were added to the engine's batch and before that
+	// batch is committed. Must not be used on memkv, whose open batch holds the store mutex.
+	BeforeInnerCommit func(ops []BatchOp)
 	// GetFault, if set, is asked before every point read; a non-nil error is returned instead of reading
 	GetFault func(key []byte) error
 	// OracleFault, if set, is asked before every GetTimestampOracle; a non-nil error is returned instead (a PD outage)
@@ -256,6 +259,11 @@ func (b *wrapBatch) inner() storage.BatchWrite {
 		case "delcur":
 			ib.DelCurrent(op.Iter)
 		}
+	}
+	if f := b.w.BeforeInnerCommit; f != nil {
+		// the operations have been handed to the engine's batch (engines that evaluate a condition when it is added
+		// have read by now); the commit follows - a caller may be descheduled in between
+		f(b.ops)
 	}
 	return ib
 }
